@@ -195,5 +195,9 @@ Proof. exact ex_acts_run. Qed.
 Example C14_ex_opes : nth_error (opes_run [[1; 2]; [3; 4]] 2) 1 = Some [1; 2; 3; 4].
 Proof. reflexivity. Qed.
 
+(* the premise of C14_abf_interleavings_union_once: an accepted execution that ends with the barrier of a round *)
+Example C14_ex_interleaving_round : exists s, srun Zgrp (firstn 11 ex_acts ++ [AFinish 2]) (sinit Zgrp 3) = Some s.
+Proof. eexists. vm_compute. reflexivity. Qed.
+
 Example C14_ex_exchange_agree : exists w, In w (exchange Zgrp 4 (init Zgrp 3)).
 Proof. eexists. left. reflexivity. Qed.
